@@ -99,12 +99,21 @@ def leaf_strat():
     )
 
 
+def raising_block():
+    """a raising predicate followed (or preceded) by one that decides: the place where the handling of
+    raise_on_error and the short-circuit order show, to be wrapped in further lists / tuples / Not"""
+    raising = st.builds(lambda f: {"k": "fn", "f": f}, st.sampled_from(["raise_odd", "raise_str"]))
+    deciding = st.builds(lambda f: {"k": "fn", "f": f}, st.sampled_from(["true", "false", "even"]))
+    pair = st.one_of(st.tuples(raising, deciding), st.tuples(deciding, raising)).map(list)
+    return st.builds(lambda kind, items: {"k": kind, "items": items}, st.sampled_from(["or", "and"]), pair)
+
+
 def spec_strat(depth):
     if depth == 0:
-        return leaf_strat()
+        return st.one_of(leaf_strat(), leaf_strat(), leaf_strat(), raising_block())
     sub = spec_strat(depth - 1)
     return st.one_of(
-        leaf_strat(), leaf_strat(),
+        leaf_strat(), leaf_strat(), raising_block(),
         st.builds(lambda items: {"k": "or", "items": items}, st.lists(sub, max_size=3)),
         st.builds(lambda items: {"k": "and", "items": items}, st.lists(sub, max_size=3)),
         st.builds(lambda s, r: {"k": "not", "spec": s, "roe": r}, sub, st.booleans()),
@@ -133,9 +142,21 @@ def mkvalue(v):
     return copy.deepcopy(v)
 
 
+def top_spec():
+    """mostly composite specifications (a single leaf says little)"""
+    sub = spec_strat(2)
+    composite = st.one_of(
+        st.builds(lambda items: {"k": "or", "items": items}, st.lists(sub, min_size=1, max_size=3)),
+        st.builds(lambda items: {"k": "and", "items": items}, st.lists(sub, min_size=1, max_size=3)),
+        st.builds(lambda s, r: {"k": "not", "spec": s, "roe": r}, sub, st.booleans()),
+        st.builds(lambda s, r: {"k": "sel", "spec": s, "roe": r}, sub, st.booleans()),
+    )
+    return st.one_of(composite, composite, composite, spec_strat(3))
+
+
 def selector_case(tier):
     return st.builds(lambda spec, roe, vals: {"spec": spec, "roe": roe, "values": vals},
-                     spec_strat(3), st.booleans(),
+                     top_spec(), st.booleans(),
                      st.lists(st.sampled_from(VALUES), min_size=1, max_size=6))
 
 
@@ -631,7 +652,7 @@ def judge_gb_invalid(case):
 
 
 CHECKS = [
-    Check("selectors", judge_selector, strategy=selector_case, quick=5000, thorough=200000,
+    Check("selectors", judge_selector, strategy=selector_case, quick=8000, thorough=200000,
           rule="selector specs nested to depth 3 over strings, classes, total/raising callables, SelectContext (3 key notations), "
                "lists, tuples, Not and ready-made Selectors, both raise_on_error settings at every level, 1-6 values each; "
                "Filter.run / fill_into keep exactly the selected objects. Non-trivial = depth>=2 with a raising leaf."),
